@@ -101,6 +101,24 @@ theorem TieL.isNewPattern_gen' (pat : Str) :
     ((!isInfix ['{'] pat) && (!isInfix ['}'] pat)) = isNewPattern pat := by
   rw [isInfix_lbrace', isInfix_rbrace']; rfl
 
+/-- the same test written `not ("{" in p or "}" in p)` -/
+theorem TieL.isNewPattern_gen'o (pat : Str) :
+    (!((isInfix ['{'] pat) || (isInfix ['}'] pat))) = isNewPattern pat := by
+  rw [Bool.not_or]; exact TieL.isNewPattern_gen' pat
+
+theorem TieL.isNewPattern_gen'oc (pat : Str) :
+    (!((isInfix ['}'] pat) || (isInfix ['{'] pat))) = isNewPattern pat := by
+  rw [Bool.or_comm]; exact TieL.isNewPattern_gen'o pat
+
+/-- the NEGATED test `"{" in p or "}" in p` (a variable `is_old_pattern` with the branches exchanged) -/
+theorem TieL.isOldPattern_gen (pat : Str) :
+    ((isInfix ['{'] pat) || (isInfix ['}'] pat)) = !isNewPattern pat := by
+  rw [← TieL.isNewPattern_gen'o, Bool.not_not]
+
+theorem TieL.isOldPattern_genc (pat : Str) :
+    ((isInfix ['}'] pat) || (isInfix ['{'] pat)) = !isNewPattern pat := by
+  rw [Bool.or_comm]; exact TieL.isOldPattern_gen pat
+
 /-- the same with the conjuncts commuted (a behaviour-preserving rewrite of the Python) -/
 theorem TieL.isNewPattern_gen'c (pat : Str) :
     ((!isInfix ['}'] pat) && (!isInfix ['{'] pat)) = isNewPattern pat := by
